@@ -1,7 +1,7 @@
 #!/bin/bash
 # dev helper: run every check of a tier sequentially, print the verdict lines
 tier=${1:-quick}
-cd /verif
+cd "$(dirname "$0")/.."
 for i in $(seq -w 1 20); do
   s=$(date +%s)
   out=$(./check C$i $tier 2>&1); rc=$?
